@@ -7,8 +7,8 @@
    not yet covered by a theorem are decided by the implementation <-> specification <->
    hardware differential run only (listed as unproved_forms in the evidence). *)
 From Coq Require Import ZArith Bool List.
-From AxV Require Import Bits Outcome Codes Iced State Rt Mem Trace Exec ExecP FrameTac FrameP RegFile RegsP ISA CodeSem IsaP OperandP.
-From AxG Require Import Flags Regs Operand Helpers Dispatch Frame.
+From AxV Require Import Bits Outcome Codes Iced State Rt Mem Trace Exec ExecP FrameTac FrameP RegFile RegsP ISA CodeSem IsaP OperandP ByteStore ControlFlow TraceP CfP CfStepP RmP MovxP StackP CallRetP Div32P MulP Stack16P.
+From AxG Require Import Flags Regs Operand Helpers Dispatch Frame I_jmp I_call I_push.
 Local Open Scope Z_scope.
 
 (* What the decoder guarantees about a memory operand (base, index: absent, RIP/EIP or a
@@ -41,6 +41,43 @@ Example C05_example :
            (set_regs empty_state (upd (regs empty_state) RBX (2 ^ 32 + 2))) = 2 ^ 32 - 2.
 Proof. split; vm_compute; reflexivity. Qed.
 
+(* Operands of indirect branches and of PUSH r/m are addressed in the state *before* the stack pointer moves:
+   the target of CALL / JMP r/m64 and the value of PUSH r/m16 are what [read_op] yields in the initial state -
+   for a memory operand the bytes at [ea i s], with RSP (as base or index) still the old one.  (Restated from
+   C03_call_rm64, C03_jmp_rm64 and C04_push_rm16 so that this property's own cone contains them.) *)
+Theorem C05_indirect_operand_uses_initial_state : forall c i s,
+  wf_regs s -> Inv (mem s) ->
+  (i_code i = C_Call_rm64 -> 0 < i_op_count i -> rm64_shape i 0 -> pre i s ->
+     match read_op i 0 64 s with
+     | Some t =>
+         match emu_push 8 (regs s RIP) s with
+         | Some s1 => exists s', instr_call_rm64 c i s = (Ok tt, s') /\ same_data s' (set_rip s1 t) /\ recorded i s s' TCall
+         | None => exists e, instr_call_rm64 c i s = (Err e, s)
+         end
+     | None => exists e, instr_call_rm64 c i s = (Err e, s)
+     end) /\
+  (i_code i = C_Jmp_rm64 -> 0 < i_op_count i -> rm64_shape i 0 -> pre i s ->
+     match isa_exec SJmpRm i s with
+     | IDone s1 _ => exists s', instr_jmp_rm64 c i s = (Ok tt, s') /\ same_data s' s1 /\ recorded i s s' TJump
+     | IFault FMem => exists e, instr_jmp_rm64 c i s = (Err e, s)
+     | IFault FBranch => True
+     | IFault _ => False
+     end) /\
+  (i_op_count i = 1 -> rm16_shape i 0 -> i_code i = C_Push_rm16 ->
+     match read_op i 0 16 s with
+     | Some v =>
+         (exists s', emu_push 2 v s = Some s' /\ instr_push_rm16 c i s = (Ok tt, s')) \/
+         (emu_push 2 v s = None /\ exists e, instr_push_rm16 c i s = (Err e, s))
+     | None => exists e, instr_push_rm16 c i s = (Err e, s)
+     end).
+Proof.
+  intros c i s Hwf HI. repeat split.
+  - intros Ec Hn Hs Hp. exact (call_rm64_exact c i s Ec Hwf HI Hn Hs Hp).
+  - intros Ec Hn Hs Hp. exact (jmp_rm64_refines c i s Ec Hwf HI Hn Hs Hp).
+  - intros Hn Hs Ec. exact (push_rm16_exact c i s Hwf HI Hn Hs Ec).
+Qed.
+
 Print Assumptions cond_matches_sdm.
 Print Assumptions C05_effective_address.
 Print Assumptions C05_mem_addr.
+Print Assumptions C05_indirect_operand_uses_initial_state.
